@@ -425,6 +425,13 @@ def witnesses(ctx):
         # a witness of a finding that is not (or no longer) listed is an ordinary case
         for v in sub.violations:
             ctx.violation(v["kind"], v["witness"], fid)
+    # the in-band error convention seen from this property: selecting '$' of a document that merely has a member called Error
+    sub = type(ctx)(ctx.check_id, ctx.tier, ctx.seed)
+    check_state(sub, {"Error": "just data", "k": 1}, {}, 0)
+    hit = [v for v in sub.violations if v["mechanism"] == "inband-error-member"]
+    ctx.witness("inband-error-member", bool(hit), hit[0]["witness"] if hit else None)
+    for v in sub.violations:
+        ctx.violation(v["kind"], v["witness"], v["mechanism"])
 
 
 def replay(ctx, doc):
